@@ -106,6 +106,16 @@ package metadata
 // the sum of the lengths reported so far; success means everything was consumed.
 //@ func (*Metadata).UnmarshalBinary
 //@   property C11
+// ... and the input is refused for these reasons only (what MarshalBinary produces is always accepted,
+// whatever its size): a protocol ID that is no varint, a transport that does not decode, or a decoded set
+// that does not validate
+//@   ghost viErr := false
+//@   ghost rfErr := false
+//@   ghost vaErr := false
+//@   at call FromUvarint: after ghost viErr := result2 != nil
+//@   at call ReadFrom: after ghost rfErr := result1 != nil
+//@   at call Validate: after ghost vaErr := result != nil
+//@   ensures-local result != nil ==> viErr || rfErr || vaErr
 //@   requires m != nil && m.mc != nil && allNonNil(m)
 //@   loop 1: invariant 0 <= read && read <= len(data)
 //@   loop 1: invariant data == old(data)
